@@ -172,8 +172,20 @@ func Harness_C17_elect_5() { harnessC17Elect(4) }
 
 // runOne processes exactly the queued events with one pass of the real run loop.
 func verifRunOnce(c *Cluster) {
+	if verifIsSymbolicEngine() {
+		// the engine's select takes the ready cases in source order: queued events first, then done
+		c.fo.done <- true
+		c.run()
+		return
+	}
+	// natively select picks at random among ready cases: let the loop drain the event queues, then stop it
+	fin := make(chan struct{})
+	go func() { c.run(); close(fin) }()
+	for len(c.fo.healthCheck) > 0 || len(c.fo.electionVote) > 0 {
+		time.Sleep(time.Millisecond)
+	}
 	c.fo.done <- true
-	c.run()
+	<-fin
 }
 
 // A node grants a vote iff the request's term is newer than its own, adopts that term, and therefore
